@@ -70,6 +70,21 @@ def c01_space(tier, alpha="basic", expiries=None, caps=None, with_collide=True, 
     return out
 
 
+def deep_narrow(tier, prefix):
+    """Two keys only, but deep: the single-threaded cache practically to its fixpoint for
+    two clock advances, the concurrent one in the regime where ops stay queued."""
+    thorough = tier == "thorough"
+    out = []
+    exps = [dict(), dict(ttl=2), dict(tti=2), dict(ttl=3, tti=2)]
+    for cap, ex in itertools.product(["none", 1, 2], exps):
+        kw = dict(dict(kind="U", cap=cap, w=0, hash="spread", alpha="basic", keys=2, D=14 if thorough else 12, A=3 if thorough else 2), **ex)
+        out.append(seqjob(name(prefix + "deep", kw), **kw))
+    for cap, ex in itertools.product(["none", 2], exps):
+        kw = dict(dict(kind="S", cap=cap, w=0, hash="spread", alpha="basic", keys=2, D=9 if thorough else 8, Q=3, A=2, beyond=1, tick=1000), **ex)
+        out.append(seqjob(name(prefix + "deep", kw), **kw))
+    return out
+
+
 def expiry_space(tier, prop):
     thorough = tier == "thorough"
     out = []
@@ -154,8 +169,11 @@ def c08_space(tier):
     thorough = tier == "thorough"
     out = []
     for kind in ("U", "S"):
-        for cap, w, ex in itertools.product([0, 1, 2], [0, 1], [dict(), dict(ttl=2, tti=2)]):
+        for cap, w, ex in itertools.product([0, 1, 2], [0, 1], [dict(), dict(ttl=2, tti=2), dict(ttl=2), dict(tti=2)]):
             if cap == 0 and ex:
+                continue
+            # only one timer: the other queue / timestamp does not exist (cap 2 only)
+            if len(ex) == 1 and (cap != 2 or w == 1):
                 continue
             kw = dict(kind=kind, cap=cap, w=w, alpha="stress", keys=3, **ex)
             if kind == "U":
@@ -293,6 +311,8 @@ def jobs_for(prop, tier):
         j = j + longruns_expiry(prop)
     if prop in ("C03", "C04", "C10", "C11", "C08"):
         j = j + from_full(prop, tier)
+    if prop in ("C01", "C03", "C05", "C06", "C10", "C11", "C16"):
+        j = j + deep_narrow(tier, prop.lower())
     if prop in ("C04", "C08", "C10", "C12", "C13"):
         j = j + bigw_space(tier)
     if prop in ("C01", "C07", "C12", "C13", "C10", "C11"):
@@ -351,7 +371,13 @@ def _jobs_for(prop, tier):
     if prop in ("C05", "C06"):
         return expiry_space(tier, prop)
     if prop == "C07":
-        return c01_space(tier, alpha="inval", caps=["none", 2], prefix="c07", dU=8 if thorough else 6, dS=8 if thorough else 6, a=2, with_collide=False)
+        out = c01_space(tier, alpha="inval", caps=["none", 2], prefix="c07", dU=8 if thorough else 6, dS=8 if thorough else 6, a=2, with_collide=False)
+        # deep and narrow: two keys, the regime in which reads and writes stay queued
+        # (a lookup / an invalidation decided on timestamps that a queued hit is about to change)
+        for cap, ex in itertools.product(["none", 2], [dict(), dict(ttl=2), dict(tti=2), dict(ttl=3, tti=2)]):
+            kw = dict(dict(kind="S", cap=cap, w=0, hash="spread", alpha="inval", keys=2, D=10 if thorough else 8, Q=3, A=2, beyond=1, tick=1000), **ex)
+            out.append(seqjob(name("c07deep", kw), **kw))
+        return out
     if prop == "C08":
         return c08_space(tier)
     if prop == "C10":
